@@ -11,15 +11,18 @@ Proof.
   destruct (iteration s beh mode) as [s' evs] eqn:E. cbn [fst].
   destruct (iteration_phases _ _ _ _ _ E)
     as (s1 & e1 & s2 & e2 & s3 & e3 & s4 & e4 & s5 & e5 & e6 & H1 & H2 & H3 & H4 & H5 & H6 & _).
-  eapply Step_trans; [rewrite <- (fst_eq _ _ _ H1); apply run_watchers_step|].
-  eapply Step_trans; [rewrite <- (fst_eq _ _ _ H2); apply run_watchers_step|].
+  assert (A1 : Step beh s s1) by (rewrite <- (fst_eq _ _ _ H1); apply run_watchers_step).
+  assert (A2 : Step beh s1 s2) by (rewrite <- (fst_eq _ _ _ H2); apply run_watchers_step).
+  assert (A3 : Step beh (set_dirty s2 false) s3) by (rewrite <- (fst_eq _ _ _ H3); apply io_poll_step).
+  assert (A4 : Step beh s3 s4) by (rewrite <- (fst_eq _ _ _ H4); apply run_watchers_step).
+  assert (A5 : Step beh (set_closing s4 []) s5) by (rewrite <- (fst_eq _ _ _ H5); apply run_closing_step).
+  assert (A6 : Step beh (update_time s5) s') by (rewrite <- (fst_eq _ _ _ H6); apply l_run_timers_step).
+  eapply Step_trans; [exact A1|]. eapply Step_trans; [exact A2|].
   eapply Step_trans; [apply (Step_core beh s2 (set_dirty s2 false)); reflexivity|].
-  eapply Step_trans; [rewrite <- (fst_eq _ _ _ H3); apply io_poll_step|].
-  eapply Step_trans; [rewrite <- (fst_eq _ _ _ H4); apply run_watchers_step|].
+  eapply Step_trans; [exact A3|]. eapply Step_trans; [exact A4|].
   eapply Step_trans; [apply (Step_core beh s4 (set_closing s4 [])); reflexivity|].
-  eapply Step_trans; [rewrite <- (fst_eq _ _ _ H5); apply run_closing_step|].
-  eapply Step_trans; [apply Step_update_time|].
-  rewrite <- (fst_eq _ _ _ H6). apply l_run_timers_step.
+  eapply Step_trans; [exact A5|].
+  eapply Step_trans; [apply Step_update_time|exact A6].
 Qed.
 
 Lemma loop_iters_step beh mode s its s' : loop_iters beh mode s its s' -> Step beh s s'.
